@@ -363,6 +363,15 @@ def usageOK (s : Core) : Option String :=
     let sum := sumRes (mine.map (fun a => addX a.allocated a.allocatedPh))
     if sparseEq e.usage sum then none else some s!"usage-ne-sum {u.1}@{e.path}"))
 
+/-- a configured limit sits on the path of a queue: a tracker entry that carries a limit but whose path is the path of a
+    queue only up to letter case is a limit the queue's applications never see (queue objects carry lower case names) -/
+def limitPathOK (s : Core) : Option String :=
+  s.users.findSome? (fun u => u.2.findSome? (fun e =>
+    if e.max.isNone && e.maxApps == 0 then none
+    else if s.queues.any (fun q => q.path == e.path) then none
+    else if s.queues.any (fun q => q.path.toLower == e.path.toLower) then some s!"limit-on-path-of-no-queue {u.1}@{e.path}"
+    else none))
+
 /-- tracked usage above a configured limit (types the limit defines) -/
 def usageOver (e : UsageEntry) : Bool :=
   match e.max with
